@@ -17,11 +17,11 @@ CHECK = {
     "exhaustive": {"quick": False, "thorough": False},
     "stages": [
         {"name": "objects", "variant": "asan", "harness": "c18_measure.cpp",
-         "cases": {"quick": 800, "thorough": 15000},
+         "cases": {"quick": 800, "thorough": 8000},
          "params": {"steps": {"quick": 7, "thorough": 10},
-                    "maxTris": {"quick": 600, "thorough": 2500},
-                    "queries": {"quick": 16, "thorough": 25},
-                    "maxPairs": {"quick": 400000, "thorough": 1500000}},
+                    "maxTris": {"quick": 600, "thorough": 1500},
+                    "queries": {"quick": 16, "thorough": 24},
+                    "maxPairs": {"quick": 400000, "thorough": 1000000}},
          "case_timeout": 300},
     ],
     "assumptions": [
@@ -53,7 +53,7 @@ TEXT = {
              "the whole), and MinGap equals the all-pairs triangle distance clamped to searchLength, 0 when surfaces cross or "
              "one solid contains the other. Sampling, not proof."),
     "note": ("Trusts the harness oracles (long double arithmetic, bands listed in the evidence assumptions) and g++'s sanitizers. "
-             "Queries are sampled (bounded mesh size <= ~2.4k/10k triangles quick/thorough); non-generic queries (on edges, "
+             "Queries are sampled (bounded mesh size <= ~2.4k/6k triangles quick/thorough); non-generic queries (on edges, "
              "vertices, touching solids) are outside the property and are counted as skipped. Serial build only."),
     "technique": "runtime monitoring: differential testing of query results against brute-force oracles on the exported mesh, under ASan+UBSan",
     "design_ref": "DESIGN.md 4 C18",
